@@ -55,8 +55,7 @@ def record(rng, n, shape=None, amp=None):
     x = np.asarray(x, dtype=float) * amp
     if rng.integers(4) == 0:
         # the same samples handed over as a VIEW: a column of a table, every second element of a longer buffer, a negative stride
-        x = as_view(rng, x)
-        shape += " (strided view)"
+        x = as_view(rng, x)             # (the shape name stays as it is: drivers select on it)
     return x, shape
 
 
